@@ -175,6 +175,39 @@ def gboost_callback_fns():
     return [cb, f['fit'], f['selected'], f['rctor'], f['ector'], f['eround'], f['evalues'], sp.done_fn()] + [g() for g in sp.boost_fns()]
 
 
+GTUNED = r'''
+int main(void)
+{
+  struct nv_gmodel_f model; struct nv_indices train, valid; struct nv_pid params; struct nv_opaque any, logger, c0, c1, c2;
+  int64_t trial, fold, trials, folds;
+  nv_thrown = 0;
+  __CPROVER_assume(model.m_prototypes.size <= 100000000 && nv_g_fits == 0 && nv_params_id0 <= 1000000000);
+  __CPROVER_assume(10 <= nv_max_rounds && nv_max_rounds <= 1000000 && 1 <= nv_patience && nv_patience <= 1000);     /* registered domains (C19) */
+  /* C13: a task of the tuning result */
+  __CPROVER_assume(1 <= trials && trials <= 1000000 && 1 <= folds && folds <= 1000 && 0 <= trial && trial < trials && 0 <= fold && fold < folds);
+  /* C13: the callback gets splits[fold] (C12: training / validation lists) and row `trial` of the parameter table */
+  train.id = NV_ID_TRAIN; valid.id = NV_ID_VALID; __CPROVER_assume(train.n >= 0 && valid.n >= 0);
+  params.id = nv_params_id0 + (uint64_t)trial;
+  struct nv_gcb_ret ret = gmodel_fit_callback(&model, &train, &valid, params, &any, &logger, &c0, &c1, &c2);
+  if (!nv_thrown)
+  {
+    /* C13: result.store(trial, fold, first, second, third) */
+    nv_c_train = ret._0; nv_c_valid = ret._1; nv_c_model = ret._2;
+    __CPROVER_assert(nv_g_fits == 1 && nv_g_fit_protos == &model.m_prototypes && nv_g_fit_params == nv_params_id0 + (uint64_t)trial,
+                     "tune task: the fold model stored under (trial, fold) comes from ONE boosting run of this task, from the model's prototypes with the hyper-parameters of THAT trial");
+    __CPROVER_assert(nv_c_model.m_wlearners.size <= nv_kept && nv_kept == nv_h_last && nv_c_model.m_statistics.rows == (int64_t)nv_kept + 1,
+                     "tune task: the fold model stored under (trial, fold) keeps the learners of the last accepted round of that run");
+    __CPROVER_assert(nv_c_train.id == nv_h_snap && nv_c_train.by == NV_ID_TRAIN,
+                     "tune task: the training statistics stored under (trial, fold) are the values of the round the stored fold model keeps, on that fold's TRAINING samples");
+    __CPROVER_assert(nv_c_valid.id == nv_h_snap && nv_c_valid.by == NV_ID_VALID,
+                     "tune task: the validation statistics stored under (trial, fold) are the values of the round the stored fold model keeps, on that fold's VALIDATION samples");
+  }
+  __CPROVER_assert(0, "nv_canary: end of harness reachable");
+  return 0;
+}
+'''
+
+
 def percentile_fn():
     VM = r'^nano::tensor1d_map_t$|^nano::tensor_t<nano::tensor_marray_storage_t, double, 1'
     return Fn('stats_percentile', 'src/machine/stats.cpp', 'percentile', flt='percentile', select=NPARAMS(2), ret='double', uf_float=False,
@@ -211,6 +244,8 @@ def targets(tier):
     lin.append(Target('linear_fit_tuned', tuned_fns, 'specs/C11/tuned.h', enforce='linear_fit_tuned', enums=EN,
                       replace=['linear_fit_callback', 'linear_fit_inner', 'linear_evaluate']))
     lin.append(Target('gmodel_fit_callback', gboost_callback_fns, 'specs/C11/gcallback.h', enforce='gmodel_fit_callback', replace=['gboost_fit']))
+    lin.append(Target('gboost_tune_task', gboost_callback_fns, 'specs/C11/gtuned.h', enforce_none=True, harness=GTUNED, replace=['gmodel_fit_callback'], loops=0,
+                      note='composition: one ml::tune task by the clauses C13 proves + the real callback through its proved contract'))
     lin.append(Target('stats_percentile', lambda: [percentile_fn()], 'specs/C11/stats.h', enforce='stats_percentile'))
     return lin + [Target('gmodel_do_predict', lambda: [gboost_predict_fn()], P, enforce='gmodel_do_predict'),
             Target('learner_predict3', lambda: [learner_fns()['p3']], P, enforce='learner_predict3'),
